@@ -3,6 +3,7 @@ package main
 // rsm engine: Resample (C18). Each case is called several times: Go randomises map iteration per call.
 
 import (
+	"math"
 	"time"
 
 	"github.com/kishyassin/goframe/dataframe"
@@ -78,6 +79,10 @@ func genRsm(r *Rng, tier string) *Enc {
 	}
 	for _, name := range valueCols {
 		df.Columns[name] = &dataframe.Column[any]{Name: name, Data: r.Column(n, Pick(r, []colKind{kInt, kStr, kBool, kMixed}))}
+	}
+	if r.Chance(10) && len(valueCols) > 0 && n > 0 {
+		c := df.Columns[valueCols[0]]
+		c.Data[r.Intn(n)] = math.NaN() // a NaN cell is a cell: the aggregation sees it as it is
 	}
 	col := "t"
 	if r.Chance(5) {
